@@ -67,3 +67,9 @@ def count_code(codes, lo, hi, code):
     if hi <= lo:
         return 0
     return count_code(codes, lo, hi - 1, code) + (1 if codes[hi - 1] == code else 0)
+
+
+@specfn({'stream': 'Obj("io.IOBase")'}, 'bool', opaque=True, heap_dep=True)
+def total_decoder(stream):
+    """the text stream never raises on undecodable bytes (its error handler is not `strict`)"""
+    return getattr(stream, 'errors', 'strict') not in (None, 'strict')
